@@ -13,6 +13,8 @@ DECL = {
     'c': 'real(kind=real64), intent(inout) :: c(n)', 'd': 'real(kind=real64), intent(out) :: d(n)',
     'a0': 'integer, intent(inout) :: a0(0:n)', 'e': 'integer, intent(in) :: e(n)',
     'r32': 'real(kind=real32), intent(out) :: r32',
+    # index arrays: their VALUES are fixed per size instance (section bounds / subscripts have to be concrete)
+    'lo': 'integer, intent(in) :: lo(2)', 'hi': 'integer, intent(in) :: hi(2)', 'idx': 'integer, intent(in) :: idx(n)',
 }
 INIT = {'s': 's = 0.0', 'k2': 'k2 = 0', 'lres': 'lres = .false.', 'd': 'do i0 = 1, n\n    d(i0) = 0.0\n  end do', 'r32': 'r32 = 0.0'}
 
@@ -131,6 +133,20 @@ T = [
     ('array', 'whole-array-assign', 'n a', 'a = 1'),
     ('array', 'whole-array-arith', 'n c', 'c = c + 1.0'),
     ('array', 'lower-bound-zero', 'n a0', 'a0(0) = 5\ndo i = 1, n\n  a0(i) = a0(i - 1) + 1\nend do'),
+    ('array', 'section-bounds-from-index-arrays', 'n c lo hi', 'do j = 1, 2\n  c(lo(j):hi(j)) = c(lo(j):hi(j)) + 10*j\nend do', '',
+     [{'n': 5, 'lo': [1, 4], 'hi': [2, 5]}, {'n': 4, 'lo': [2, 1], 'hi': [4, 1]}]),
+    ('array', 'section-stride-from-index-array', 'n c lo hi', 'c(lo(1):hi(2):lo(2)) = 0.0', '',
+     [{'n': 5, 'lo': [1, 2], 'hi': [3, 5]}, {'n': 5, 'lo': [2, 3], 'hi': [1, 5]}]),
+    ('array', 'section-rhs-bounds-from-index-arrays', 'n c d lo hi', 'd(1:2) = c(lo(2):hi(2))', '',
+     [{'n': 4, 'lo': [1, 3], 'hi': [2, 4]}, {'n': 5, 'lo': [1, 2], 'hi': [5, 3]}]),
+    ('array', 'gather-concrete-index', 'n c d idx', 'do i = 1, n\n  d(i) = c(idx(i))\nend do', '',
+     [{'n': 3, 'idx': [2, 3, 1]}, {'n': 4, 'idx': [4, 4, 1, 2]}]),
+    ('array', 'scatter-concrete-index', 'n c idx', 'do i = 1, n\n  c(idx(i)) = c(idx(i)) + i\nend do', '',
+     [{'n': 3, 'idx': [3, 1, 3]}, {'n': 4, 'idx': [2, 1, 4, 3]}]),
+    ('array', 'two-level-index', 'n a idx', 'do i = 1, n\n  a(idx(idx(i))) = a(idx(i)) + i\nend do', '',
+     [{'n': 3, 'idx': [2, 3, 1]}, {'n': 4, 'idx': [2, 1, 4, 3]}]),
+    ('array', 'index-arithmetic-on-index-array', 'n c idx', 'do i = 1, n - 1\n  c(idx(i + 1) - 1 + 1) = c(idx(i)) * 2.0\nend do', '',
+     [{'n': 3, 'idx': [2, 3, 1]}]),
     ('array', 'int-array-as-real-operand', 'n a c', 'do i = 1, n\n  c(i) = c(i)*a(i) + a(i)\nend do'),
 ]
 
@@ -141,6 +157,8 @@ def cases():
         group, name, args, body = t[:4]
         local = t[4] if len(t) > 4 else ''
         sizes = [{'n': 3}, {'n': 4}, {'n': 5}] if ' n ' in f' {args} ' else [{}]
+        if len(t) > 5:
+            sizes = t[5]
         out.append(Case(f'{group}/{name}', kern(args, body, local), 'kern', sizes, None, 'transpile', must_change=False,
                         unwind=5, custom=_custom))
     return out
